@@ -511,8 +511,89 @@ func (a *ownAnalysis) forAllFacts(n ast.Node, stack []ast.Node,
 
 // exprTypes: statically known type set of an *LVal expression (constructor
 // result or single-assignment local of one).
+// errorValContract: `type ErrorVal LVal` is the Go-error view of an error value.  Every conversion
+// TO *ErrorVal in the kernel is made on a value shown to be LError at that point; then every
+// *ErrorVal converted back with (*LVal)(e) is an LError value.  Decided on every run; embedder code
+// that converts by hand owns the contract itself.
+func (c *Ctx) errorValContract() bool {
+	if v, ok := c.memo["errorValContract"].(bool); ok {
+		return v
+	}
+	c.memo["errorValContract"] = false // while computing (exprTypes may come back here)
+	ev := c.LookupType("lisp.ErrorVal")
+	if ev == nil {
+		return false
+	}
+	evPtr := types.NewPointer(ev)
+	good, n := true, 0
+	for _, u := range c.Funcs(isKernel) {
+		if u.Decl == nil || u.Decl.Body == nil {
+			continue
+		}
+		a := newOwnAnalysis(c, u)
+		var fc *FCFG
+		var stack []ast.Node
+		ast.Inspect(u.Decl.Body, func(nd ast.Node) bool {
+			if nd == nil {
+				stack = stack[:len(stack)-1]
+				return true
+			}
+			stack = append(stack, nd)
+			ce, ok := nd.(*ast.CallExpr)
+			if !ok || len(ce.Args) != 1 {
+				return true
+			}
+			tv, ok := a.info.Types[ce.Fun]
+			if !ok || !tv.IsType() || !types.Identical(tv.Type, evPtr) {
+				return true
+			}
+			// converting an *ErrorVal (or nil) is no new claim
+			if at, ok := a.info.Types[ce.Args[0]]; ok && (at.IsNil() || types.Identical(at.Type, evPtr)) {
+				return true
+			}
+			n++
+			st := make([]ast.Node, len(stack))
+			copy(st, stack)
+			if fc == nil {
+				fc = c.cfgOf(u, nil)
+			}
+			ffc := fc
+			if lit := innermostBody(u.Decl, ce); lit.Lit != nil {
+				ffc = c.cfgOf(u, lit.Lit)
+			}
+			facts := a.typeFactsAt(ffc, ce, st)
+			okSite := false
+			if s, ok := facts[a.resolvedKey(ce.Args[0], 0)]; ok && len(s) > 0 && s.subsetOf(ts("LError")) {
+				okSite = true
+			}
+			if s := a.exprTypes(ce.Args[0], 0); len(s) > 0 && s.subsetOf(ts("LError")) {
+				okSite = true
+			}
+			if !okSite {
+				good = false
+			}
+			return true
+		})
+	}
+	res := good && n > 0
+	c.memo["errorValContract"] = res
+	return res
+}
+
 func (a *ownAnalysis) exprTypes(e ast.Expr, depth int) typeSet {
 	e = ast.Unparen(e)
+	// (*LVal)(x) with x an *ErrorVal: an error value, by the conversion contract
+	if ce, ok := e.(*ast.CallExpr); ok && len(ce.Args) == 1 {
+		if tv, ok := a.info.Types[ce.Fun]; ok && tv.IsType() && a.lvalPtr != nil && types.Identical(tv.Type, a.lvalPtr) {
+			if at, ok := a.info.Types[ce.Args[0]]; ok {
+				if p, ok := at.Type.(*types.Pointer); ok {
+					if nt, ok := types.Unalias(p.Elem()).(*types.Named); ok && nt.Obj().Name() == "ErrorVal" && nt.Obj().Pkg() != nil && rel(nt.Obj().Pkg().Path()) == "lisp" && a.c.errorValContract() {
+						return ts("LError")
+					}
+				}
+			}
+		}
+	}
 	if ce, ok := e.(*ast.CallExpr); ok {
 		if fn := originOf(Callee(a.info, ce)); fn != nil {
 			name := FuncName(fn)
